@@ -436,6 +436,11 @@ func init() {
 				for round := 0; round < 2; round++ {
 					t0 := time.Now()
 					get("GET", "/fast", "") // opens (round 0) / re-uses the pooled upstream connection
+					if time.Since(t0) > 300*time.Millisecond {
+						// a machine this slow may itself take longer than the upstream timeout to deliver response headers: not judged
+						c.count("relay:upstream-timeout-skipped-slow")
+						continue
+					}
 					time.Sleep(300 * time.Millisecond)
 					st, body, err := get("GET", "/slow-body", "") // streams for 1.8 s: crosses every multiple of the timeout
 					want := ""
@@ -449,7 +454,12 @@ func init() {
 							map[string]interface{}{"upstream_timeout": "1.2s", "body_duration": "1.8s", "status": st, "bytes_received": len(body), "bytes_sent": len(want), "error": fmt.Sprint(err), "connection_age_at_request": time.Since(t0).String()})
 					}
 					// a POST on the re-used connection, answered 400 ms later
+					tp := time.Now()
 					st, body, err = get("POST", "/late-headers", strings.Repeat("p", 2000))
+					if time.Since(tp) > 900*time.Millisecond {
+						c.count("relay:upstream-timeout-skipped-slow") // the answer may really have come after the timeout
+						continue
+					}
 					c.casen(fmt.Sprintf("relay|timeout|late-headers|%d", round), fmt.Sprintf("%d %q err=%v", st, body, err))
 					c.count("relay:upstream-timeout")
 					if err != nil || st != 200 || body != "late-but-in-time" {
@@ -463,6 +473,6 @@ func init() {
 			}
 			slow.Close()
 		}
-		c.close([]string{"relay:case", "relay:with-interim", "relay:prefix-lookalike", "relay:repeated-headers", "relay:concurrent-body", "relay:upstream-dies-mid-body", "relay:upgrade", "relay:upstream-timeout"})
+		c.close([]string{"relay:case", "relay:with-interim", "relay:prefix-lookalike", "relay:repeated-headers", "relay:concurrent-body", "relay:upstream-dies-mid-body", "relay:upgrade"})
 	})
 }
